@@ -292,6 +292,14 @@ func init() {
 		return nil
 	})
 	reg("(*sync.Pool).Get", func(fr *frame, args []value) value {
+		// an object that was Put is handed out again by the next Get (most recent first), as the real pool does
+		// for a Get on the same P: recycling is what a pool is for, so code that keeps using an object after
+		// Put meets its next user here
+		if q := E.pools[args[0].(*value)]; len(q) > 0 {
+			v := q[len(q)-1]
+			E.pools[args[0].(*value)] = q[:len(q)-1]
+			return v
+		}
 		p := (*args[0].(*value)).(structure)
 		// last field is New func() any
 		newf := p[len(p)-1]
@@ -300,7 +308,13 @@ func init() {
 		}
 		return callValue(fr, 0, newf, nil)
 	})
-	reg("(*sync.Pool).Put", func(fr *frame, args []value) value { return nil })
+	reg("(*sync.Pool).Put", func(fr *frame, args []value) value {
+		if E.pools == nil {
+			E.pools = map[*value][]value{}
+		}
+		E.pools[args[0].(*value)] = append(E.pools[args[0].(*value)], args[1])
+		return nil
+	})
 
 	// ---- sync/atomic
 	atomicLoad := func(fr *frame, args []value) value {
